@@ -5,40 +5,63 @@ The REAL update() is driven end to end (real parsing of the shipped sample suite
 multi-worker traversal); only infrastructure is faked: the remote door (records every `unset` it is asked to perform),
 the avocado job, worker start/login and TestRunner.run_test_task (records every executed test, reports PASS).
 
-ORACLE (written from tp_folder/configs/groups.cfg + sets.cfg and the property, not from the implementation):
+ORACLE (written from tp_folder/configs/groups.cfg + sets.cfg + vms.cfg and the property, not from the implementation):
   * PARENT: a vm's state S' is derived from S when the setup/leaf test that sets S' for that vm gets S of the same vm.
-  * LEAF_TESTS: which states of vm1/vm2 every leaf test of the sample suite needs/sets; a remove_set selects leaf tests;
-    the states "in the graph" for a vm are the PARENT-closure of what the selected leaf tests need/set for that vm.
+  * LEAF_TESTS: which states of vm1/vm2 every leaf test of the sample suite needs/sets, per OS variant of the vm where the
+    configuration makes a difference (`connect` is only ever needed by a CentOS vm1); a remove_set selects leaf tests; the
+    states "in the graph" for a vm variant are the PARENT-closure of what the selected leaf tests need/set for it.
   * path(from,to) = states from `to` up the PARENT chain until `from`; `install` is produced by the object-root noop
     plus the original unattended_install test, every other state by the setup test of the same name.
+  * every selected OS variant of a vm is a vm of its own (own path, own saved states); a variant that is available but not
+    selected is another vm: nothing of it is run or removed.
+  * remove_set / from_state / to_state of a vm: the vm-suffixed key (remove_set_vm1) wins over the global key, then the
+    documented default (leaves / install / customize); keys suffixed with a vm that is not selected mean nothing.
 
 Obligations:
-  update_runs_exact_path          executed (vm, setup test) set == tests on path(from,to) of every selected vm, each on a
-                                  configured worker and (all tests PASS) exactly once over all workers
-  update_cleans_only_descendants  removed (worker, vm, state) set == every worker x selected vm x states in the remove_set
-                                  graph strictly derived from to_state (nothing on/before the path, nothing of other vms)
-  unknown_state_rejected          from_state/to_state not in the (remove_set) graph -> an exception, nothing run/removed
+  update_runs_exact_path          executed (vm, variant, setup test) set == tests on path(from,to) of every selected vm variant,
+                                  each on a configured worker and (all tests PASS) exactly once over all workers
+  update_cleans_only_descendants  removed (worker, vm, variant, state) set == every worker x selected vm variant x states in the
+                                  graph of that vm's remove_set strictly derived from to_state (nothing on/before the path,
+                                  nothing outside its own remove_set, nothing of other vms / unselected variants)
+  unknown_state_rejected          from_state/to_state not in the (remove_set) graph of a selected vm variant -> an exception,
+                                  nothing run/removed
   no_unexpected_exception         a valid request must not raise
   flag_children_exact             flagged nodes == descendants (via setup edges) of the unique root, with skip_parents /
                                   skip_children, only the requested flag kind; no/ambiguous root -> AssertionError
   flag_intersection_exact         flagged nodes == nodes whose set-less name occurs in the other graph, honouring
                                   skip_shared_root / skip_object_roots
 
-Scope: vms vm1 (CentOS) / vm2 (Win10), available vms vm1..vm3; all (from,to) pairs with `from` an ancestor-or-self of `to`
-among the setup states install, customize, on_customize, connect, linux_virtuser (vm1) / windows_virtuser (vm2) (12 per
-vm; pairs whose states are not in the remove_set graph, e.g. vm2 connect, are rejection cases), plus the documented defaults
-and unknown / foreign states; selections {vm1}, {vm1,vm2} (vm2 pairs rotated by the seed), {vm2}; workers 1..2 (3 with the
-default remove_set in thorough); remove_set default(leaves), minimal, tutorial1, leaves..tutorial_gui (+normal in thorough).
-quick: 23 fixed requests (2 vms x 2 workers, rejections, small remove sets, every chain pair once alternating vm1/vm2)
-then a seed-shuffled sample until ~85 s (not exhaustive).  thorough: the whole list under an 18 min budget.
+Scope: vms vm1 / vm2, available vms vm1..vm3; all (from,to) pairs with `from` an ancestor-or-self of `to` among the setup
+states install, customize, on_customize, connect, linux_virtuser (vm1) / windows_virtuser (vm2) (12 per vm; pairs whose states
+are not in the remove_set graph, e.g. vm2 connect, are rejection cases), plus the documented defaults and unknown / foreign
+states; workers 1..2 (thorough: 3 with the default remove_set, also with a multi-variant vm1 / vm2, and with two of the
+remove_set_<vm> combinations); remove_set default(leaves), minimal, tutorial1, leaves..tutorial_gui (+normal in thorough).  Three families of requests (a request is the json "input" of a failure:
+{"vms", "states": {vm: [from, to]} (vm-suffixed keys), "remove_set" (global key), "nets", and optionally "params": raw extra
+vms_params keys, "variants": {vm: "" (all) | [variant, ..]} selected, "available": {vm: ...} available variants}):
+  1. one variant per vm (CentOS / Win10), global remove_set: selections {vm1}, {vm1,vm2} (vm2 pairs rotated by the seed), {vm2};
+  2. multi-variant selections: vm1 = CentOS+Fedora and/or vm2 = Win10+Win7 (as "" and as `only A,B`), alone, with a
+     single-variant other vm and both together, all 12 pairs (i.e. also every from_state other than install); one variant
+     selected while both are available (the other one must be left alone);
+  3. vm-suffixed parameters for two selected vms: 6 (thorough 9) (remove_set, remove_set_vm1, remove_set_vm2) combinations x the 12 pair
+     combinations, the states spelled as both suffixed / global + vm2 suffixed / global + vm1 suffixed (rotating); only the global
+     from_state/to_state for two vms; keys suffixed with an unselected vm; families 2 and 3 combined.
+Requests are grouped by configuration (a group = the 12 pairs); tasks are chunks of a group run in VERIF_JOBS (default 8)
+forked processes.  quick: 44 fixed requests in 10 tasks first (incl. every chain pair once alternating vm1/vm2, rejections, and
+minimal multi-variant / suffixed requests), then 3 seed-chosen requests of every group (groups in seeded order), then the next
+3 of every group, ... until the wall budget (VERIF_BUDGET, default 80 s; not exhaustive by construction even if the whole
+list is done).  thorough: every group in order, 6 requests per task, under a 17 min budget (+ up to 1 min for requests in
+flight); `exhaustive` only if the whole list was done.
 flag_* checks: every node / name+vm+worker selector of 3 (4 thorough) small parsed graphs x run/clean x skip options;
 every ordered graph pair x options for flag_intersection (exhaustive for those graphs).
-Speed: Reparsable.get_params (pure Cartesian parsing, not under check) is memoised in-process (UT_NOCACHE=1 disables it;
-UT_DEBUG=1 prints every observation on stderr).
+Speed (infrastructure only, UT_NOCACHE=1 / UT_REALSLEEP=1 switch it off, UT_DEBUG=1 prints every observation on stderr,
+UT_DUMP=<file> writes all failures): Reparsable.get_params / get_parser().get_dicts() (pure Cartesian parsing, not under
+check) are memoised in-process on the parsed steps; asyncio.sleep of the code under test is capped at 0.02 s (a worker bounced
+from an occupied node would wait test_timeout/1000 = 3.6 s per bounce although the fake tests take 0.01 s).
 """
 import asyncio
 import atexit
 import contextlib
+import copy
 import itertools
 import json
 import logging
@@ -62,6 +85,8 @@ from avocado_i2n.plugins.runner import TestRunner  # noqa: E402
 from avocado_i2n.cartgraph import TestGraph  # noqa: E402
 
 AVAILABLE_VMS = {"vm1": "only CentOS\n", "vm2": "only Win10\n", "vm3": "only Ubuntu\n"}
+ALL_VARIANTS = {"vm1": ["CentOS", "Fedora"], "vm2": ["Win10", "Win7"], "vm3": ["Ubuntu", "Kali"]}     # vms.cfg / guest-os.cfg
+DEFAULT_VARIANTS = {"vm1": ["CentOS"], "vm2": ["Win10"], "vm3": ["Ubuntu"]}
 TMPDIR = tempfile.mkdtemp(prefix="update_tool_")
 atexit.register(shutil.rmtree, TMPDIR, ignore_errors=True)
 
@@ -85,30 +110,74 @@ def _cached_get_params(self, list_of_keys=None, dict_index=0, **kw):
     return utils_params.Params(dict(val))
 
 
+_orig_get_parser = param.Reparsable.get_parser
+_DCACHE = {}
+
+
+class _CachedParser:
+    """Stands for a cartesian_config.Parser whose only used service is get_dicts()."""
+
+    def __init__(self, dicts):
+        self.dicts = dicts
+
+    def get_dicts(self):
+        for one in self.dicts:
+            yield copy.deepcopy(one)
+
+
+def _cached_get_parser(self, *args, **kw):
+    if args or kw:
+        return _orig_get_parser(self, *args, **kw)
+    sig = tuple((type(s).__name__, getattr(s, "filename", None) or (s.parsable_form() if isinstance(s, param.ParsedDict)
+                                                                    else s.content)) for s in self.steps)
+    if sig not in _DCACHE:
+        try:
+            _DCACHE[sig] = (True, list(_orig_get_parser(self).get_dicts()))
+        except Exception as error:  # pylint: disable=W0703
+            _DCACHE[sig] = (False, error)
+    ok, val = _DCACHE[sig]
+    if not ok:
+        raise val
+    return _CachedParser(val)
+
+
 if not os.environ.get("UT_NOCACHE"):
     param.Reparsable.get_params = _cached_get_params
+    param.Reparsable.get_parser = _cached_get_parser
+
+# ---------------------------------------------------------------- speed-up: a worker bounced from an occupied node waits
+# test_timeout/1000 = 3.6 s per bounce while the fake tests take 0.01 s; cap every asyncio sleep of the code under test
+_orig_sleep = asyncio.sleep
+
+
+async def _short_sleep(delay, result=None):
+    return await _orig_sleep(min(delay, 0.02), result)
 
 # ---------------------------------------------------------------- oracle model of the sample suite
 PARENT = {"customize": "install", "on_customize": "customize", "connect": "customize", "linux_virtuser": "customize",
           "windows_virtuser": "customize", "guisetup.noop": "windows_virtuser", "guisetup.clicked": "windows_virtuser",
           "getsetup.noop": "guisetup.noop", "getsetup.clicked": "guisetup.clicked",
           "getsetup.guisetup.noop": "guisetup.noop", "getsetup.guisetup.clicked": "guisetup.clicked"}
-# leaf test -> states needed or set per vm ("main" = the vm being updated: quicktest runs on the main vm)
+# leaf test -> states needed or set per vm ("main" = the vm being updated: quicktest runs on the main vm); a dict instead of a
+# list gives them per OS variant of that vm, a variant missing there has no such test (groups.cfg: tutorial3.no_remote gets
+# `connect` only for `vm1.qemu_kvm_centos`, else the `customize` of tutorial3; tutorial3.remote, tutorial_get and
+# tutorial_finale are `only_vm1 = qemu_kvm_centos`; tutorial_gui is for both vm1 variants)
 LEAF_TESTS = {
     "tutorial1": {"main": ["on_customize"]},
     "tutorial2.files": {"main": ["on_customize"]},
     "tutorial2.names": {"main": ["on_customize"]},
-    "tutorial3.no_remote": {"vm1": ["connect"], "vm2": ["customize"]},
-    "tutorial3.remote": {"vm1": ["connect"], "vm2": ["customize"]},
+    "tutorial3.no_remote": {"vm1": {"CentOS": ["connect"], "Fedora": ["customize"]}, "vm2": ["customize"]},
+    "tutorial3.remote": {"vm1": {"CentOS": ["connect"]}, "vm2": ["customize"]},
     "tutorial_gui.client_noop": {"vm1": ["linux_virtuser"], "vm2": ["windows_virtuser", "guisetup.noop"]},
     "tutorial_gui.client_clicked": {"vm1": ["linux_virtuser"], "vm2": ["windows_virtuser", "guisetup.clicked"]},
-    "tutorial_get.explicit_noop": {"vm1": ["connect"], "vm2": ["guisetup.noop", "getsetup.noop"]},
-    "tutorial_get.explicit_clicked": {"vm1": ["connect"], "vm2": ["guisetup.clicked", "getsetup.clicked"]},
-    "tutorial_get.implicit_both": {"vm1": ["connect"], "vm2": ["getsetup.guisetup.noop", "getsetup.guisetup.clicked"]},
-    "tutorial_finale": {"vm1": ["connect"], "vm2": ["getsetup.guisetup.noop", "getsetup.guisetup.clicked"]},
+    "tutorial_get.explicit_noop": {"vm1": {"CentOS": ["connect"]}, "vm2": ["guisetup.noop", "getsetup.noop"]},
+    "tutorial_get.explicit_clicked": {"vm1": {"CentOS": ["connect"]}, "vm2": ["guisetup.clicked", "getsetup.clicked"]},
+    "tutorial_get.implicit_both": {"vm1": {"CentOS": ["connect"]}, "vm2": ["getsetup.guisetup.noop", "getsetup.guisetup.clicked"]},
+    "tutorial_finale": {"vm1": {"CentOS": ["connect"]}, "vm2": ["getsetup.guisetup.noop", "getsetup.guisetup.clicked"]},
 }
 REMOVE_SETS = {      # remove_set value -> selected leaf tests (sets.cfg: leaves, normal, minimal; else a plain test filter)
     None: list(LEAF_TESTS),
+    "leaves": list(LEAF_TESTS),
     "minimal": ["tutorial1", "tutorial2.files", "tutorial2.names"],
     "tutorial1": ["tutorial1"],
     "leaves..tutorial_gui": ["tutorial_gui.client_noop", "tutorial_gui.client_clicked"],
@@ -127,13 +196,14 @@ def ancestors(state):
     return out
 
 
-def universe(vm, remove_set):
-    """States of `vm` present in the graph of the remove_set."""
+def universe(vm, remove_set, variant=None):
+    """States of `vm` (of the given OS variant, default: the suite's single default variant) in the graph of the remove_set."""
+    variant = variant or DEFAULT_VARIANTS[vm][0]
     states = set()
     for test in REMOVE_SETS[remove_set]:
         for role, needed in LEAF_TESTS[test].items():
             if role == vm or role == "main":
-                for state in needed:
+                for state in (needed.get(variant, []) if isinstance(needed, dict) else needed):
                     states.update(ancestors(state))
     return states
 
@@ -147,6 +217,54 @@ def expected_path_tests(frm, to):
     for state in chain[:chain.index(frm) + 1]:
         labels.update(["noop", "install"] if state == "install" else [state])
     return labels
+
+
+def restr_of(selection):
+    """Cartesian restriction of a variant selection: "" = every variant of the vm, else a list of variant names."""
+    return "" if selection == "" else "only " + ",".join(selection) + "\n"
+
+
+def selection_of(case, vm):
+    """Selected variants of a vm (as given: "" or a list); the suite defaults to one variant per vm."""
+    return (case.get("variants") or {}).get(vm, DEFAULT_VARIANTS[vm])
+
+
+def available_of(case, vm):
+    """Available variants of a vm: explicit, else what is selected, else the default single variant."""
+    explicit = (case.get("available") or {})
+    if vm in explicit:
+        return explicit[vm]
+    return selection_of(case, vm) if vm in case["vms"] else DEFAULT_VARIANTS[vm]
+
+
+def variants_of(vm, selection):
+    return list(ALL_VARIANTS[vm]) if selection == "" else list(selection)
+
+
+def variant_in(name, vms):
+    """OS variant(s) of the given vm(s) named in a full Cartesian test name ('+'-joined for several vms)."""
+    tokens = name.split(".")
+    return "+".join(v for vm in vms.split() for v in ALL_VARIANTS.get(vm, []) if v in tokens)
+
+
+def raw_params(case):
+    """The vms_params handed to update(): suffixed states from "states", global "remove_set", then raw "params"."""
+    raw = {}
+    for vm, (frm, to) in (case.get("states") or {}).items():        # None = leave unset
+        if frm is not None:
+            raw["from_state_" + vm] = frm
+        if to is not None:
+            raw["to_state_" + vm] = to
+    if case.get("remove_set"):
+        raw["remove_set"] = case["remove_set"]
+    raw.update(case.get("params") or {})
+    return raw
+
+
+def resolved(case, vm, key, default=None):
+    """Parameter of a vm: its vm-suffixed form wins over the global form, then the documented default."""
+    raw = raw_params(case)
+    return raw.get(f"{key}_{vm}", raw.get(key, default))
 
 
 def test_label(name):
@@ -185,14 +303,15 @@ class RecordingDoor:
             return
         for key in params.keys():
             if key.startswith("unset_state_"):     # unset_state_images_image1_vm1 / unset_state_vms_vm1
-                RecordingDoor.unsets.append([params["nets"], key.split("_")[-1], params[key]])
+                vm = key.split("_")[-1]
+                RecordingDoor.unsets.append([params["nets"], vm, variant_in(params["name"], vm), params[key]])
 
 
 EXECUTED = []
 
 
 async def fake_run_test_task(self, node):
-    await asyncio.sleep(0.01)
+    await _orig_sleep(0.01)
     params = node.params
     EXECUTED.append([params["nets"], params["vms"], params["name"]])
     tid = type("T", (), {"uid": node.id_test.uid, "name": params["name"]})()
@@ -217,22 +336,20 @@ def patches():
             mock.patch("avocado_i2n.cartgraph.node.door", RecordingDoor),
             mock.patch("avocado_i2n.cartgraph.worker.TestWorker.start", mock.MagicMock()),
             mock.patch("avocado_i2n.plugins.runner.SpawnerDispatcher", mock.MagicMock()),
-            mock.patch.object(TestRunner, "run_test_task", fake_run_test_task)]
+            mock.patch.object(TestRunner, "run_test_task", fake_run_test_task)] + (
+        [] if os.environ.get("UT_REALSLEEP") else [mock.patch("asyncio.sleep", _short_sleep)])
 
 
 def run_update(case):
-    """Run the real update() for {"vms": [...], "states": {vm: [from, to]}, "remove_set": str|None, "nets": n}."""
+    """Run the real update() for {"vms": [...], "states": {vm: [from, to]}, "remove_set": str|None, "nets": n} with the
+    optional "params": {raw vms_params key: value}, "variants": {vm: ""|[variant, ..]}, "available": {vm: ""|[variant, ..]}."""
     vms_params = utils_params.Params()
-    for vm, (frm, to) in case["states"].items():        # None = leave the documented default (install / customize)
-        if frm is not None:
-            vms_params["from_state_" + vm] = frm
-        if to is not None:
-            vms_params["to_state_" + vm] = to
-    if case.get("remove_set"):
-        vms_params["remove_set"] = case["remove_set"]
-    config = {"available_vms": dict(AVAILABLE_VMS), "available_restrictions": ["leaves", "normal", "minimal"],
+    for key, value in raw_params(case).items():         # unset = the documented default (install / customize / leaves)
+        vms_params[key] = value
+    config = {"available_vms": {vm: restr_of(available_of(case, vm)) for vm in AVAILABLE_VMS},
+              "available_restrictions": ["leaves", "normal", "minimal"],
               "param_dict": {"nets": " ".join(f"net{i + 1}" for i in range(case["nets"]))},
-              "vm_strs": {vm: AVAILABLE_VMS[vm] for vm in case["vms"]}, "tests_str": {},
+              "vm_strs": {vm: restr_of(selection_of(case, vm)) for vm in case["vms"]}, "tests_str": {},
               "tests_params": utils_params.Params(), "vms_params": vms_params}
     del EXECUTED[:]
     RecordingDoor.unsets, RecordingDoor.others = [], []
@@ -254,24 +371,24 @@ def run_update(case):
 
 # ---------------------------------------------------------------- checks of update()
 def given_states(case, vm):
-    """Requested (from, to) of a vm with the documented defaults filled in."""
-    frm, to = case["states"][vm]
-    return ("install" if frm is None else frm), ("customize" if to is None else to)
+    """Requested (from, to) of a vm (vm-suffixed form, else global form) with the documented defaults filled in."""
+    return resolved(case, vm, "from_state", "install"), resolved(case, vm, "to_state", "customize")
 
 
 def expectation(case):
-    """Oracle: (valid, expected {(vm, test label)}, expected {(worker, vm, state)} to be removed)."""
+    """Oracle: (valid, expected {(vm, variant, test label)}, expected {(worker, vm, variant, state)} to be removed)."""
     workers = [f"net{i + 1}" for i in range(case["nets"])]
     valid, exp_run, exp_unset = True, set(), set()
     for vm in case["vms"]:
         frm, to = given_states(case, vm)
-        states = universe(vm, case.get("remove_set"))
         labels = expected_path_tests(frm, to)
-        if frm not in states or to not in states or labels is None:
-            valid = False
-            continue
-        exp_run.update((vm, label) for label in labels)
-        exp_unset.update((w, vm, s) for w in workers for s in states if to in ancestors(s)[1:])
+        for variant in variants_of(vm, selection_of(case, vm)):      # every selected variant is a vm of its own
+            states = universe(vm, resolved(case, vm, "remove_set"), variant)
+            if frm not in states or to not in states or labels is None:
+                valid = False
+                continue
+            exp_run.update((vm, variant, label) for label in labels)
+            exp_unset.update((w, vm, variant, s) for w in workers for s in states if to in ancestors(s)[1:])
     return valid, exp_run, exp_unset
 
 
@@ -285,7 +402,8 @@ def check_update(case, failures, stats):
     if os.environ.get("UT_DEBUG"):
         print(f"[{time.time() - t_case:5.1f}s] {json.dumps(case)} valid={valid} error={error}\n    run={sorted(map(tuple, executed))}\n"
               f"    unset={sorted(map(tuple, unsets))}", file=sys.stderr)
-    got_run = set((vms, test_label(name)) for _, vms, name in executed)
+    got_run = set((vms, variant_in(name, vms), test_label(name)) for _, vms, name in executed)
+    selected = {vm: variants_of(vm, selection_of(case, vm)) for vm in case["vms"]}
     got_unset = set(tuple(u) for u in unsets)
     stats["cases"] += 1
 
@@ -312,16 +430,18 @@ def check_update(case, failures, stats):
         extra, missing = got_run - exp_run, exp_run - got_run
         if missing:
             klass = "missing_path_test"
-        elif any(vm not in case["vms"] for vm, _ in extra):
+        elif any(vm not in case["vms"] for vm, _, _ in extra):
             klass = "test_of_unselected_vm"
-        elif any(label in ancestors(given_states(case, vm)[0])[1:] or (label in ("noop", "install")) for vm, label in extra):
+        elif any(variant not in selected[vm] for vm, variant, _ in extra):
+            klass = "test_of_unselected_variant"
+        elif any(label in ancestors(given_states(case, vm)[0])[1:] or (label in ("noop", "install")) for vm, _, label in extra):
             klass = "extra_test_before_from_state"
         else:
             klass = "extra_test_off_path"
         fail("update_runs_exact_path", klass, sorted(got_run), sorted(exp_run))
     else:
-        per_worker = [(w, vms, test_label(name)) for w, vms, name in executed]
-        if any(w not in workers for w, _, _ in per_worker):
+        per_worker = [(w, vms, variant_in(name, vms), test_label(name)) for w, vms, name in executed]
+        if any(w not in workers for w, _, _, _ in per_worker):
             fail("update_runs_exact_path", "test_on_unknown_worker", sorted(per_worker), workers)
         elif len(got_run) != len(per_worker):     # workers share results of bridged nodes: a PASSed test is not repeated
             fail("update_runs_exact_path", "path_test_executed_more_than_once", sorted(per_worker), "each path test exactly once")
@@ -329,10 +449,14 @@ def check_update(case, failures, stats):
         extra, missing = got_unset - exp_unset, exp_unset - got_unset
         if missing:
             klass = "missing_descendant_unset"
-        elif any(vm not in case["vms"] for _, vm, _ in extra):
+        elif any(vm not in case["vms"] for _, vm, _, _ in extra):
             klass = "unset_of_other_vm"
-        elif any(vm in case["states"] and s in ancestors(given_states(case, vm)[1]) for _, vm, s in extra):
+        elif any(variant not in selected[vm] for _, vm, variant, _ in extra):
+            klass = "unset_of_unselected_variant"
+        elif any(s in ancestors(given_states(case, vm)[1]) for _, vm, _, s in extra):
             klass = "unset_on_or_before_path"
+        elif any(s not in universe(vm, resolved(case, vm, "remove_set"), variant) for _, vm, variant, s in extra):
+            klass = "unset_outside_remove_set"      # a state of the vm that its own remove_set does not reach
         else:
             klass = "unset_not_derived_from_to_state"
         fail("update_cleans_only_descendants", klass, {"extra": sorted(extra), "missing": sorted(missing)}, sorted(exp_unset))
@@ -344,57 +468,168 @@ def chain_pairs(vm):
     return [(frm, to) for to in CHAIN_STATES[vm] for frm in reversed(ancestors(to))]
 
 
+def make_case(states, remove_set=None, nets=1, variants=None, available=None, params=None):
+    """An update request; the optional keys are only present when used (old replay inputs stay valid)."""
+    out = {"vms": sorted(set(states) | set(variants or {})), "states": {vm: list(pair) for vm, pair in states.items()},
+           "remove_set": remove_set, "nets": nets}
+    for key, value in (("variants", variants), ("available", available), ("params", params)):
+        if value:
+            out[key] = value
+    return out
+
+
+def spread_states(form, pair1, pair2):
+    """Three spellings of 'vm1 gets pair1, vm2 gets pair2': (states, params) for make_case."""
+    if form == 0:       # both vm-suffixed
+        return {"vm1": pair1, "vm2": pair2}, {}
+    if form == 1:       # global form meant for vm1, vm2 overrides it with its suffixed form
+        return {"vm2": pair2}, {"from_state": pair1[0], "to_state": pair1[1]}
+    return {"vm1": pair1}, {"from_state": pair2[0], "to_state": pair2[1]}
+
+
 def update_cases(tier, rnd):
-    """Ordered list of update requests; returns (cases, number of leading fixed cases)."""
+    """Returns (fixed chunks, groups): lists of update requests sharing most of their parsing; fixed ones always run first."""
     p1, p2 = chain_pairs("vm1"), chain_pairs("vm2")
     shift = rnd.randrange(len(p2))
+    case, quick = make_case, tier == "quick"
+    both = {"vm1": (None, None), "vm2": (None, None)}
 
-    def case(states, remove_set=None, nets=1):
-        return {"vms": sorted(states), "states": {vm: list(pair) for vm, pair in states.items()}, "remove_set": remove_set, "nets": nets}
-
-    fixed = [case({"vm1": ("customize", "connect"), "vm2": ("install", "customize")}, None, 2)]     # also warms the parse cache
-    fixed += [
-        case({"vm1": (None, None)}),                                                # documented defaults install -> customize
-        case({"vm1": ("on_customize", "on_customize")}, "minimal"),
-        case({"vm1": ("install", "customize")}, "tutorial1"),
-        case({"vm1": ("customize", "linux_virtuser"), "vm2": ("windows_virtuser", "windows_virtuser")}, "leaves..tutorial_gui"),
-        case({"vm1": ("install", "nonexistent_state")}),
-        case({"vm1": ("nonexistent_state", "customize")}),
-        case({"vm1": ("customize", "connect")}, "minimal"),                         # known setup state outside the remove_set graph
-        case({"vm1": ("install", "customize"), "vm2": ("customize", "nonexistent_state")}),
-        case({"vm1": ("customize", "windows_virtuser")}),                           # state of another guest type only
-        case({"vm1": ("windows_virtuser", "connect")}, None, 2),
-        case({"vm1": ("customize", "connect"), "vm2": ("linux_virtuser", "customize")}, None, 2),
-    ]
     parity = shift % 2                                    # every chain pair once, alternately for vm1 and vm2 (seed flips which)
-    fixed += [case({"vm1": p1[i]} if i % 2 == parity else {"vm2": p2[i]}) for i in range(len(p1))]
-    full = []
+    fixed = [
+        [case({"vm1": ("customize", "connect"), "vm2": ("install", "customize")}, None, 2),
+         case({"vm1": ("windows_virtuser", "connect")}, None, 2),
+         case({"vm1": ("customize", "connect"), "vm2": ("linux_virtuser", "customize")}, None, 2)],
+        # a vm selected with several variants: every variant is updated along the whole path (from_state included)
+        [case({"vm1": ("customize", "linux_virtuser")}, variants={"vm1": ""}),
+         case({"vm1": ("on_customize", "on_customize")}, variants={"vm1": ""}),
+         case({"vm1": ("customize", "nonexistent_state")}, variants={"vm1": ""}),
+         case({"vm1": ("customize", "on_customize")}, variants={"vm1": ["Fedora"]}, available={"vm1": ""})],
+        # vm-suffixed remove_set / global and mixed from_state, to_state for two selected vms
+        [case(both, params={"remove_set_vm1": "minimal"}),
+         case({"vm1": ("customize", "connect"), "vm2": ("customize", "on_customize")}, params={"remove_set_vm2": "minimal"}),
+         case({}, params={"from_state": "customize", "to_state": "on_customize"}, variants={"vm1": ["CentOS"], "vm2": ["Win10"]}),
+         case({"vm1": (None, "connect"), "vm2": (None, "windows_virtuser")}, params={"from_state": "customize"}),
+         case({"vm1": (None, "customize"), "vm2": (None, "on_customize")}, params={"to_state": "nonexistent_state"}),
+         case({"vm2": (None, "nonexistent_state")}, params={"to_state": "customize"}, variants={"vm1": ["CentOS"]}),
+         case({"vm1": ("customize", "connect"), "vm2": (None, None)}, params={"remove_set_vm1": "minimal"})],
+        [case({"vm1": (None, None)}),                                               # documented defaults install -> customize
+         case({"vm1": ("install", "nonexistent_state")}),
+         case({"vm1": ("nonexistent_state", "customize")}),
+         case({"vm1": ("customize", "windows_virtuser")}),                          # state of another guest type only
+         case({"vm1": ("install", "customize"), "vm2": ("customize", "nonexistent_state")}),
+         case({"vm1": ("customize", "connect")}, params={"remove_set_vm2": "minimal"})],      # setting of an unselected vm
+        [case({"vm1": ("on_customize", "on_customize")}, "minimal"),
+         case({"vm1": ("customize", "connect")}, "minimal"),                        # known setup state outside the remove_set graph
+         case({"vm1": ("install", "customize")}, "tutorial1"),
+         case({"vm1": ("customize", "linux_virtuser"), "vm2": ("windows_virtuser", "windows_virtuser")}, "leaves..tutorial_gui"),
+         case({"vm1": ("install", "on_customize"), "vm2": ("customize", "windows_virtuser")}, "minimal",
+              params={"remove_set_vm2": "leaves..tutorial_gui"})],
+        [case({"vm2": ("customize", "windows_virtuser")}, variants={"vm2": ""}),
+         case({"vm2": ("install", "customize")}, variants={"vm2": ""}),
+         case({"vm2": ("customize", "connect")}, variants={"vm2": ""})],
+        [case({"vm1": ("customize", "connect"), "vm2": ("customize", "customize")}, None, 2, variants={"vm1": ""}),
+         case({"vm1": ("install", "customize"), "vm2": (None, None)}, None, 2, variants={"vm1": ""},
+              params={"remove_set_vm1": "tutorial1"})],
+        [case({"vm1": p1[i]}) for i in range(len(p1)) if i % 2 == parity],
+        [case({"vm2": p2[i]}) for i in range(len(p1)) if i % 2 != parity],
+        [case({"vm1": ("on_customize", "on_customize")}, "minimal", variants={"vm1": ["CentOS", "Fedora"]}),
+         case({"vm1": ("customize", "on_customize")}, "minimal", variants={"vm1": ["CentOS", "Fedora"]})],
+    ]
+
+    groups = []
     small = ["minimal", "leaves..tutorial_gui", "tutorial1"]
-    if tier == "quick":
-        groups = [(n, r) for n in (1, 2) for r in [None] + small]
+    # ---- one variant per vm, global remove_set (the original scope)
+    if quick:
+        plain = [(n, r) for n in (1, 2) for r in [None] + small]
     else:       # most expensive/informative groups first; `normal` with one worker, 3 workers with the default remove_set
-        groups = [(1, None), (2, None), (1, "normal"), (3, None)] + [(n, r) for n in (1, 2) for r in small]
-    for nets, remove_set in groups:
+        plain = [(1, None), (2, None), (1, "normal"), (3, None)] + [(n, r) for n in (1, 2) for r in small] + [(2, "normal")]
+    for nets, remove_set in plain:
+        groups.append([case({"vm1": pair}, remove_set, nets) for pair in p1])
+        groups.append([case({"vm1": pair, "vm2": p2[(i + shift) % len(p2)]}, remove_set, nets) for i, pair in enumerate(p1)
+                       if nets < 3 or i % 4 == shift % 4])
+        if not quick and nets < 3:
+            groups.append([case({"vm2": pair}, remove_set, nets) for pair in p2])
+    # ---- selections with several variants of a vm ("" = all variants, also as available vms)
+    all1, all2 = {"vm1": ""}, {"vm2": ""}
+    multi = [(1, None), (2, None), (1, "minimal"), (1, "leaves..tutorial_gui")] + (
+        [] if quick else [(2, "leaves..tutorial_gui"), (2, "minimal"), (1, "tutorial1"), (1, "normal"), (3, None)])
+    for nets, remove_set in multi:
+        groups.append([case({"vm1": pair}, remove_set, nets, variants=all1) for pair in p1])
+        groups.append([case({"vm1": pair, "vm2": p2[(i + shift) % len(p2)]}, remove_set, nets, variants=all1) for i, pair in enumerate(p1)])
+        if not quick or nets == 1:
+            groups.append([case({"vm2": pair}, remove_set, nets, variants=all2) for pair in p2])
+    groups.append([case({"vm1": pair, "vm2": p2[(i + shift) % len(p2)]}, None, 1, variants={"vm1": "", "vm2": ""}) for i, pair in enumerate(p1)])
+    for one in (["Fedora"], ["CentOS"]):       # one variant selected of two available ones: the other one is left alone
+        groups.append([case({"vm1": pair}, None, 1, variants={"vm1": one}, available=all1) for pair in p1])
+    if not quick:
+        groups.append([case({"vm1": pair}, "minimal", 1, variants={"vm1": ["CentOS", "Fedora"]}) for pair in p1])
+        groups.append([case({"vm1": pair, "vm2": p2[(i + shift) % len(p2)]}, "leaves..tutorial_gui", 1, variants={"vm1": "", "vm2": ""})
+                       for i, pair in enumerate(p1)])
+        groups.append([case({"vm1": pair, "vm2": p2[(i + shift) % len(p2)]}, None, 2, variants={"vm1": "", "vm2": ""}) for i, pair in enumerate(p1)])
+    # ---- vm-suffixed parameters: (global remove_set, remove_set_vm1, remove_set_vm2) x three spellings of the states
+    combos = [(None, "minimal", None), (None, None, "minimal"), (None, "tutorial1", "leaves..tutorial_gui"),
+              ("minimal", None, "leaves..tutorial_gui"), (None, "leaves..tutorial_gui", "minimal"), ("tutorial1", "leaves", None)]
+    if not quick:
+        combos += [("leaves..tutorial_gui", "minimal", None), (None, "normal", "minimal"), ("normal", None, "leaves")]
+    for nets in (1, 2) if quick else (1, 2, 3):
+        for glob, rs1, rs2 in combos[:len(combos) if nets < 3 else 2]:
+            group = []
+            for i, pair in enumerate(p1):
+                states, params = spread_states((i + shift) % 3, pair, p2[(i + shift) % len(p2)])
+                params.update({k: v for k, v in (("remove_set_vm1", rs1), ("remove_set_vm2", rs2)) if v})
+                group.append(case(states, glob, nets, params=params, variants={"vm1": ["CentOS"], "vm2": ["Win10"]}))
+            groups.append(group)
+    shared = [pair for pair in p1 if pair in p2] + [("customize", "linux_virtuser"), ("windows_virtuser", "windows_virtuser")]
+    for rs1 in (None, "minimal"):              # only the global from_state / to_state for two vms
+        groups.append([case({}, None, 1 + i % 2, params=dict({"from_state": frm, "to_state": to}, **({"remove_set_vm1": rs1} if rs1 else {})),
+                            variants={"vm1": ["CentOS"], "vm2": ["Win10"]}) for i, (frm, to) in enumerate(shared)])
+    for other in ("minimal", "tutorial1"):     # settings of a vm that is not selected do not matter
+        groups.append([case({"vm1": pair}, None, 1, params={"remove_set_vm2": other, "to_state_vm2": "nonexistent_state"}) for pair in p1])
+        groups.append([case({"vm2": pair}, None, 1, params={"remove_set_vm1": other, "from_state_vm1": "nonexistent_state"}) for pair in p2])
+    both_dims = [("minimal", None, "", ["Win10"], 1), (None, "minimal", "", ["Win10"], 1)] + ([] if quick else [
+        ("minimal", None, ["CentOS"], "", 1), (None, "leaves..tutorial_gui", "", "", 1), ("minimal", None, "", ["Win10"], 2)])
+    for rs1, rs2, sel1, sel2, nets in both_dims:                       # both dimensions together
+        group = []
         for i, pair in enumerate(p1):
-            full.append(case({"vm1": pair}, remove_set, nets))
-            if nets < 3 or i % 4 == shift % 4:
-                full.append(case({"vm1": pair, "vm2": p2[(i + shift) % len(p2)]}, remove_set, nets))
-            if tier != "quick" and nets < 3:
-                full.append(case({"vm2": p2[i]}, remove_set, nets))
-    if tier == "quick":       # seed-dependent sample: two valid requests for every rejected one
-        rnd.shuffle(full)
-        good, bad = [c for c in full if expectation(c)[0]], [c for c in full if not expectation(c)[0]]
-        full = []
-        while good or bad:
-            full += good[:2] + bad[:1]
-            good, bad = good[2:], bad[1:]
-    seen, out = set(), []
-    for item in fixed + full:
-        key = json.dumps(item, sort_keys=True)
-        if key not in seen:
-            seen.add(key)
-            out.append(item)
-    return out, len(fixed)
+            states, params = spread_states((i + shift) % 3, pair, p2[(i + shift) % len(p2)])
+            params.update({k: v for k, v in (("remove_set_vm1", rs1), ("remove_set_vm2", rs2)) if v})
+            group.append(case(states, None, nets, params=params, variants={"vm1": sel1, "vm2": sel2}))
+        groups.append(group)
+
+    seen, out_groups = set(json.dumps(item, sort_keys=True) for chunk in fixed for item in chunk), []
+    for group in groups:
+        kept = []
+        for item in group:
+            key = json.dumps(item, sort_keys=True)
+            if key not in seen:
+                seen.add(key)
+                kept.append(item)
+        out_groups.append(kept)
+    return fixed, [g for g in out_groups if g]
+
+
+def schedule(tier, fixed, groups, rnd):
+    """Tasks (lists of requests run in one process, sharing its parse cache) in the order in which they are started: the fixed
+    chunks, then a chunk of every group (quick: groups in seeded order, 3 seed-chosen requests with two valid ones for every
+    rejected one; thorough: 6 in order), then the next chunk of every group, ..."""
+    size = 3 if tier == "quick" else 6
+    per_group = []
+    for group in groups:
+        group = list(group)
+        if tier == "quick":
+            rnd.shuffle(group)
+            good, bad = [c for c in group if expectation(c)[0]], [c for c in group if not expectation(c)[0]]
+            group = []
+            while good or bad:
+                group += good[:2] + bad[:1]
+                good, bad = good[2:], bad[1:]
+        per_group.append([group[i:i + size] for i in range(0, len(group), size)])
+    if tier == "quick":
+        rnd.shuffle(per_group)
+    tasks = [list(chunk) for chunk in fixed]
+    for rank in range(max(len(chunks) for chunks in per_group)):
+        tasks += [chunks[rank] for chunks in per_group if rank < len(chunks)]
+    return tasks
 
 
 # ---------------------------------------------------------------- checks of flag_children / flag_intersection
@@ -546,6 +781,21 @@ def new_stats():
         "flag_children_exact", "flag_intersection_exact")}}
 
 
+_DEADLINE = [None]
+
+
+def run_task(chunk):
+    """One scheduled task (in a forked process or inline): check its requests in order until the deadline."""
+    failures, stats, done = [], new_stats(), 0
+    for case in chunk:
+        if time.time() > _DEADLINE[0]:
+            break
+        check_update(case, failures, stats)
+        done += 1
+    stats["nontrivial"] = sorted(stats["nontrivial"])
+    return failures, stats, done
+
+
 def main():
     if "--replay" in sys.argv:
         case = json.loads(sys.argv[sys.argv.index("--replay") + 1])
@@ -556,7 +806,8 @@ def main():
         return 0 if ok else 1
     tier = os.environ.get("VERIF_TIER", "quick")
     rnd = random.Random(int(os.environ.get("VERIF_SEED", "0") or 0))
-    budget = 85 if tier == "quick" else 1080
+    budget = float(os.environ.get("VERIF_BUDGET", "0") or 0) or (80 if tier == "quick" else 1020)
+    jobs = max(1, min(int(os.environ.get("VERIF_JOBS", "0") or 0) or 8, os.cpu_count() or 1))
     failures, stats, t0 = [], new_stats(), time.time()
     children, inter = flag_cases(tier)
     for case in children:
@@ -564,32 +815,62 @@ def main():
     for case in inter:
         check_flag_intersection(case, failures, stats)
     flag_total = len(children) + len(inter)
-    cases, n_core = update_cases(tier, rnd)
-    done = 0
-    for case in cases:
-        if time.time() - t0 > budget:
-            break
-        check_update(case, failures, stats)
-        done += 1
-    # keep one failure per (obligation, class) first so that the 10 reported are diverse
+    fixed, groups = update_cases(tier, rnd)
+    tasks = schedule(tier, fixed, groups, rnd)
+    cases = [case for task in tasks for case in task]
+    n_fixed = sum(len(chunk) for chunk in fixed)
+    _DEADLINE[0] = t0 + budget
+    grace = 15 if tier == "quick" else 60          # for the requests in flight at the deadline
+    done, cut, results = 0, False, []
+    if jobs == 1:
+        results = [run_task(task) for task in tasks]
+    else:
+        import multiprocessing
+        with multiprocessing.get_context("fork").Pool(jobs) as pool:
+            pending = pool.imap(run_task, tasks, chunksize=1)
+            for _ in tasks:
+                try:
+                    results.append(pending.next(timeout=max(1.0, _DEADLINE[0] + grace - time.time())))
+                except multiprocessing.TimeoutError:
+                    cut = True
+                    break
+            pool.terminate()
+    for task_failures, task_stats, task_done in results:
+        failures += task_failures
+        done += task_done
+        stats["cases"] += task_stats["cases"]
+        stats["nontrivial"].update(task_stats["nontrivial"])
+        for key, count in task_stats["obligations"].items():
+            stats["obligations"][key] += count
+    fixed_done = sum(task_done for _, _, task_done in results[:len(fixed)])
+    # keep one failure per (obligation, class) first so that the 10 reported are diverse (smallest input of a class first)
+    failures.sort(key=lambda f: (f["input"].get("kind") != "update", len(json.dumps(f["input"]))))
     seen, diverse, rest = set(), [], []
     for failure in failures:
         key = (failure["obligation"], failure.get("class"))
         (rest if key in seen else diverse).append(failure)
         seen.add(key)
+    multi = [c for c in cases if any(len(variants_of(vm, selection_of(c, vm))) > 1 for vm in c["vms"])]
+    suffixed = [c for c in cases if c.get("params")]
     res = {
         "name": "update_tool", "obligations": stats["obligations"], "cases": stats["cases"],
         "distinct_nontrivial": len(stats["nontrivial"]),
         "rule": "update request non-trivial = valid and (path has >1 test or something must be removed); flag_children case "
                 "non-trivial = a unique root exists; flag_intersection case non-trivial = proper non-empty subset or a skip option",
-        "bound": f"tier={tier}: update requests {done}/{len(cases)} (first {n_core} fixed, rest "
-                 f"{'seed-shuffled' if tier == 'quick' else 'in order'}; vms vm1/vm2, 12 chain pairs per vm, workers 1..{2 if tier == 'quick' else '2 (3 with the default remove_set)'}, "
-                 f"remove_set default/minimal/tutorial1/leaves..tutorial_gui{'/normal (1 worker)' if tier != 'quick' else ''}); flag cases {flag_total}/{flag_total} "
+        "bound": f"tier={tier}: update requests {done}/{len(cases)} in {len(tasks)} tasks on {jobs} processes, {time.time() - t0:.0f}s "
+                 f"(first {n_fixed} fixed, {fixed_done} of them done; rest {'a seeded sample of every group' if tier == 'quick' else 'every group in order'}; "
+                 f"vms vm1/vm2, 12 chain pairs per vm, workers 1..{2 if tier == 'quick' else '2 (3 with the default remove_set or two remove_set_<vm> combinations)'}, "
+                 f"remove_set default/minimal/tutorial1/leaves..tutorial_gui{'/normal' if tier != 'quick' else ''}; "
+                 f"{len(multi)} requests with a multi-variant vm (CentOS+Fedora / Win10+Win7), {len(suffixed)} with vm-suffixed or global "
+                 f"remove_set/from_state/to_state mixes); flag cases {flag_total}/{flag_total} "
                  f"on graphs {sorted(_GRAPHS)}; failure classes found: {len(seen)}; total failures: {len(failures)}",
-        "exhaustive": bool(done == len(cases) and tier != "quick"),
-        "samples": cases[:2] + children[5:6] + inter[3:4],
+        "exhaustive": bool(done == len(cases) and not cut and tier != "quick"),
+        "samples": [fixed[0][0], fixed[1][0], fixed[2][0]] + children[5:6] + inter[3:4],
         "failures": (diverse + rest)[:10],
     }
+    if os.environ.get("UT_DUMP"):          # every failure, not only the 10 reported ones
+        with open(os.environ["UT_DUMP"], "w") as handle:
+            json.dump(diverse + rest, handle, indent=1)
     print("BOUNDED-RESULT " + json.dumps(res), file=_stdout)
     return 0
 
